@@ -28,7 +28,7 @@ ANCHOR_FILES = ["gpytorch/kernels/", "gpytorch/utils/interpolation.py", "gpytorc
 
 def cases(tier, seed):
     rnd = random.Random(9000 + seed)
-    reps = 1 if tier == "quick" else 8
+    reps = 1 if tier == "quick" else 30
     for _ in range(reps):
         for t, rank, n1, n2 in itertools.product([2, 3], [1, 2], [1, 4], [3]):
             for data in ("matern_ard", "linear", "poly", "kiss"):
